@@ -9,8 +9,8 @@ Decode(&v) of encoder-produced streams and all their truncations."""
 import json
 import hv
 
-K_F1 = "readStringAsBytes-slowpath-split-char-panic"
-K_F2 = "readStringAsBytes-slowpath-spurious-eof-at-end-of-stream"
+import glob
+import os
 
 TINY = [1, 2, 3, 4, 5, 7, 8, 16, 64]
 BIG = [0, 256, 257, 4096]          # through NewDecoderFromReader (anything below 256 becomes 256)
@@ -44,38 +44,6 @@ def bounds(total, lens, cap):
         s.add(acc)
     s.discard(total)
     return s
-
-
-def width(b):
-    hi = b >> 4
-    if hi <= 7:
-        return 1
-    if hi in (12, 13):
-        return 2
-    if hi == 14:
-        return 3
-    if hi == 15:
-        return 4
-    return 0
-
-
-def f1_possible(data, bs):
-    """some multi-byte character contains two read boundaries (or one and the end of the stream) strictly inside it"""
-    for i, b in enumerate(data):
-        w = width(b)
-        if w >= 3 and b >= 0xC0:
-            inside = [p for p in range(i + 1, i + w) if p in bs or p == len(data)]
-            if len(inside) >= 2:
-                return True
-    return False
-
-
-def f2_possible(data, bs):
-    """the stream ends with 'u' + a 3-byte character and a read boundary lies inside that character"""
-    n = len(data)
-    if n >= 4 and data[n - 4] == 0x75 and width(data[n - 3]) == 3 and data[n - 3] >= 0xC0:
-        return (n - 2) in bs or (n - 1) in bs
-    return False
 
 
 # ----------------------------------------------------------------- chunk patterns
@@ -270,6 +238,40 @@ def first_diff(a, b):
     return None
 
 
+# ----------------------------------------------------------------- corpus
+
+def oracle_diff(case, a, b):
+    fields = ["toks", "val", "err", "panic", "rest"]
+    if case.get("ctor") == "fmt":
+        fields.remove("rest")
+    return [f for f in fields
+            if (bool(a.get(f)) != bool(b.get(f)) if f == "panic" else a.get(f) != b.get(f))]
+
+
+def corpus_cases(ctx):
+    files = sorted(glob.glob(os.path.join(hv.V, "corpus", "C05-*.json")))
+    n = 0
+    for path in files:
+        r = json.load(open(path))
+        for k, pair in enumerate(r["pairs"]):
+            case, base = dict(pair["case"], id=1), dict(pair["contiguous_case"], id=2)
+            rc, obs, err = hv.run_harness("c05", [case, base])
+            n += 1
+            if rc != 0 or len(obs) != 2:
+                ctx.report("corpus:" + os.path.basename(path), "harness died on corpus case %d of %s: %s" % (k, path, err[-300:]),
+                           {"case": case, "contiguous_case": base, "failing_input": True})
+                continue
+            a, b = obs
+            diff = oracle_diff(case, a, b)
+            exp = pair.get("expect")
+            if diff or (exp is not None and any(a.get(f) != v for f, v in exp.items())):
+                ctx.report("corpus:" + os.path.basename(path),
+                           "%s (case %d): streaming gives %s, contiguous gives %s, expected %s"
+                           % (r.get("what", path), k, json.dumps(a), json.dumps(b), json.dumps(exp)),
+                           {"case": case, "contiguous_case": base, "observed": a, "contiguous": b, "failing_input": True})
+    ctx.note("corpus_cases_run_first", n)
+
+
 # ----------------------------------------------------------------- the check
 
 def run(ctx):
@@ -287,6 +289,9 @@ def run(ctx):
     hv.build_harness("c05")
     hv.build_modelrun("c05")
     rng = ctx.rng
+
+    # ---------------- 0. corpus first: minimised cases of repaired defects must pass
+    corpus_cases(ctx)
 
     # ---------------- A. primitive sequences: model vs implementation, and the oracle
     progs = gen_programs(ctx, 420 if quick else 3000, 160 if quick else 1200)
@@ -336,7 +341,6 @@ def run(ctx):
     out_by_id = {c["id"]: o for c, o in zip(cases, mout)}
     mproj = {}
     disagree = set()
-    repaired = set()
     for c, out in zip(cases, mout):
         m = meta[c["id"]]
         p = progs[m["p"]]
@@ -346,17 +350,6 @@ def run(ctx):
         it, ip = project_impl(byid[c["id"]])
         mproj[c["id"]] = (mt, mp, guard, spec)
         agree = (mt == it) and ((mp is None) == (ip is None))
-        if not agree and guard.endswith((":refill", ":end")) and st == it and (sp is None) == (ip is None):
-            # outside the guard the pinned code deviates from the specification (the two findings);
-            # an implementation that follows the specification there has been repaired
-            ctx.bump("impl_follows_spec_where_model_reproduces_a_finding", guard.split(":")[2])
-            agree = True
-            repaired.add(c["id"])
-        if not agree and guard.endswith(":input"):
-            # a malformed string (bad lead byte / 4-byte character for one unit): outside the property's
-            # quantifier and outside every theorem's guard; differences are only counted
-            ctx.bump("malformed_string_cases_where_model_and_impl_differ")
-            agree = True
         if not agree:
             disagree.add(c["id"])
         if guard == "guard=1" and spec != "spec=1":
@@ -409,15 +402,7 @@ def run(ctx):
         what = ("stream %s cmds %s reads %s cap %d: streaming gives %s%s, contiguous gives %s%s"
                 % (p["data"].hex(), p["cmds"], m["lens"], m["cap"], it, " PANIC " + ip if ip else "", bt,
                    " PANIC " + bp if bp else ""))
-        if model_ok and why == "refill" and ip is not None and c["id"] not in repaired:
-            ctx.report(K_F1, "a multi-byte character delivered over three reads makes readStringAsBytes slice "
-                       "dec.buf[head:tail] with head > tail: " + what, replay)
-            ctx.bump("finding_hits", K_F1)
-        elif model_ok and why == "end" and ip is None and c["id"] not in repaired and m["base"] not in repaired:
-            ctx.report(K_F2, "a 3-byte character at the very end of the stream, split by the reader, decodes with "
-                       "err=EOF while the contiguous decode reports no error: " + what, replay)
-            ctx.bump("finding_hits", K_F2)
-        elif why == "input":
+        if why == "input":
             outside += 1      # malformed UTF-8 / declared length: outside the property's quantifier
         else:
             ctx.report("prim-streaming-differs:" + cmdname, what, replay)
@@ -505,17 +490,7 @@ def run(ctx):
                    o.get("panic"), b.get("val"), b.get("err"), b.get("rest"), b.get("panic")))
         replay = {"case": c, "contiguous_case": dcase_by_id[m["base"]], "observed": o,
                   "contiguous": b, "failing_input": True}
-        pan = o.get("panic") or ""
-        if "slice bounds out of range" in pan and not b.get("panic") and f1_possible(data, bs):
-            ctx.report(K_F1, "a multi-byte character delivered over three reads makes readStringAsBytes slice "
-                       "dec.buf[head:tail] with head > tail: " + what, replay)
-            ctx.bump("finding_hits", K_F1)
-        elif diff == ["err"] and o.get("err") == "EOF" and b.get("err") == "-" and f2_possible(data, bs):
-            ctx.report(K_F2, "a 3-byte character at the very end of the stream, split by the reader, decodes with "
-                       "err=EOF while the contiguous decode reports no error: " + what, replay)
-            ctx.bump("finding_hits", K_F2)
-        else:
-            ctx.report("decode-streaming-differs:" + "+".join(diff), what, replay)
+        ctx.report("decode-streaming-differs:" + "+".join(diff), what, replay)
     ctx.note("decode_cases", len(dcases))
     ctx.note("decode_streams", len(samples))
     ctx.note("decode_valid_streams_decoding_without_error", valid_ok)
@@ -538,9 +513,6 @@ def replay(ctx, path):
         print("property oracle: harness crashed", err[-300:])
         return 1
     a, b = obs
-    fields = ["toks", "val", "err", "panic", "rest"]
-    if r["case"].get("ctor") == "fmt":
-        fields.remove("rest")
-    diff = [f for f in fields if (a.get(f) if f != "panic" else bool(a.get(f))) != (b.get(f) if f != "panic" else bool(b.get(f)))]
+    diff = oracle_diff(r["case"], a, b)
     print("property oracle: streaming %s contiguous in %s" % ("differs from" if diff else "equals", diff or "every observable"))
     return 1 if diff else 0
